@@ -1299,6 +1299,33 @@ def simplify(coef, net, free):
                 break
         if changed:
             continue
+        # ---- Cholesky axiom  L L' = X:  Chol(X)[.., a, s] Chol(X)[.., b, s] (column index summed, used nowhere else) -> X[.., a, b]
+        for i1, (h1, x1) in enumerate(f):
+            if H[h1].kind != "Chol" or len(x1) < 2:
+                continue
+            s_ = x1[-1]
+            if s_ in free or cnt[s_] != 2:
+                continue
+            for i2, (h2, x2) in enumerate(f):
+                if i2 <= i1 or h2 != h1 or x2[:-2] != x1[:-2] or x2[-1] != s_ or x2[-2] == s_ or x1[-2] == s_:
+                    continue
+                info = H[h1]
+                m = dict(zip(info.bslots, x1[:-2]))
+                m[info.mslots[0]], m[info.mslots[1]] = x1[-2], x2[-2]
+                if len(info.arg[1]) != 1:
+                    break                                     # X a sum: leave the product opaque
+                ca, na = info.arg[1][0]
+                for y in na.vars():
+                    if y not in m:
+                        m[y] = fresh(ST.size[y], "q")
+                coef = coef * ca
+                f = [g for k, g in enumerate(f) if k not in (i1, i2)] + list(na.rename(m).f)
+                changed = True
+                break
+            if changed:
+                break
+        if changed:
+            continue
         # ---- diagonal heads  h[...,a,b] -> vec[...,a] delta[a,b]
         for k, (h, ix) in enumerate(f):
             if h in ST.diag:
